@@ -3,15 +3,27 @@
 package execute
 
 import (
+	"bytes"
 	"context"
 	"fmt"
 	"sort"
 	"testing"
 	"time"
 
+	commonconfig "github.com/smartcontractkit/chainlink-common/pkg/config"
+	"github.com/smartcontractkit/libocr/commontypes"
+	"github.com/smartcontractkit/libocr/offchainreporting2plus/ocr3types"
+	"github.com/smartcontractkit/libocr/offchainreporting2plus/types"
+	libocrtypes "github.com/smartcontractkit/libocr/ragep2p/types"
+
+	"github.com/smartcontractkit/chainlink-ccip/execute/costlymessages"
 	"github.com/smartcontractkit/chainlink-ccip/execute/exectypes"
+	"github.com/smartcontractkit/chainlink-ccip/execute/report"
+	"github.com/smartcontractkit/chainlink-ccip/execute/tokendata"
 	"github.com/smartcontractkit/chainlink-ccip/internal/mocks"
+	"github.com/smartcontractkit/chainlink-ccip/internal/plugincommon"
 	cciptypes "github.com/smartcontractkit/chainlink-ccip/pkg/types/ccipocr3"
+	"github.com/smartcontractkit/chainlink-ccip/pluginconfig"
 	plugintypes2 "github.com/smartcontractkit/chainlink-ccip/plugintypes"
 )
 
@@ -609,5 +621,287 @@ func TestVerif_C09_pending(t *testing.T) {
 		}
 		sink.Emit("C09_pending", cls, !readerErr && execErrChain == 0, cPair(cTup(inReports, cList(tab), cList(world)), out),
 			map[string]any{"chains": fmt.Sprint(chains), "readerErr": readerErr, "execErrChain": execErrChain, "out": out})
+	}
+}
+
+// ---------------------------------------------------------------------------------------------------------------
+// History level: four real execute.Plugin instances over a scripted destination / source world, OCR rounds driven by
+// a minimal runner (Observation -> ValidateObservation -> Outcome), commit reports and executions landing between
+// rounds. Every round is emitted with the world snapshot taken at the first observation of its three-round cycle.
+
+type vC09Gas struct{}
+
+func (vC09Gas) CalculateMerkleTreeGas(int) uint64               { return 0 }
+func (vC09Gas) CalculateMessageMaxGas(cciptypes.Message) uint64 { return 0 }
+
+type vC09World struct {
+	r        *vRand
+	chains   []cciptypes.ChainSelector
+	msgs     map[cciptypes.ChainSelector]map[uint64]cciptypes.Message
+	reps     map[cciptypes.ChainSelector][]vC09Rep
+	reports  []plugintypes2.CommitPluginReportWithMeta
+	executed map[cciptypes.ChainSelector]map[uint64]bool
+	next     map[cciptypes.ChainSelector]uint64
+	now      time.Time
+	nextID   uint64
+}
+
+func (w *vC09World) msg(c cciptypes.ChainSelector, s uint64) cciptypes.Message {
+	return cciptypes.Message{
+		Header: cciptypes.RampMessageHeader{MessageID: vC17B32x(uint64(c)*100000 + s), SourceChainSelector: c,
+			DestChainSelector: 900, SequenceNumber: cciptypes.SeqNum(s)},
+		Sender: cciptypes.UnknownAddress{1, 2, 3}, Data: cciptypes.Bytes{byte(s)},
+		FeeTokenAmount: cciptypes.NewBigIntFromInt64(1), FeeValueJuels: cciptypes.NewBigIntFromInt64(1),
+	}
+}
+
+func (w *vC09World) commitLands(t *testing.T, c cciptypes.ChainSelector) {
+	if w.r.Chance(1, 5) {
+		w.next[c]++ // a sequence number that no commit report covers (hole between reports)
+	}
+	lo := w.next[c]
+	hi := lo + uint64(w.r.Intn(4))
+	w.next[c] = hi + 1
+	var ms []cciptypes.Message
+	for s := lo; s <= hi; s++ {
+		m := w.msg(c, s)
+		w.msgs[c][s] = m
+		ms = append(ms, m)
+	}
+	data := exectypes.CommitData{SourceChain: c,
+		SequenceNumberRange: cciptypes.NewSeqNumRange(cciptypes.SeqNum(lo), cciptypes.SeqNum(hi)), Messages: ms}
+	tree, err := report.ConstructMerkleTree(context.Background(), mocks.NewMessageHasher(), data, mocks.NullLogger)
+	if err != nil {
+		t.Fatal(err)
+	}
+	w.nextID++
+	w.now = w.now.Add(time.Second)
+	w.reps[c] = append(w.reps[c], vC09Rep{id: w.nextID, lo: lo, hi: hi})
+	w.reports = append(w.reports, plugintypes2.CommitPluginReportWithMeta{
+		Report: cciptypes.CommitPluginReport{MerkleRoots: []cciptypes.MerkleRootChain{{ChainSel: c,
+			SeqNumsRange: data.SequenceNumberRange, MerkleRoot: tree.Root()}}},
+		Timestamp: w.now, BlockNum: w.nextID})
+}
+
+func (w *vC09World) snapshot() string {
+	var cs []string
+	for _, c := range w.chains {
+		var reps []string
+		for _, p := range w.reps[c] {
+			reps = append(reps, vC09RepIn(p))
+		}
+		var xs []cciptypes.SeqNum
+		for s := range w.executed[c] {
+			xs = append(xs, cciptypes.SeqNum(s))
+		}
+		sort.Slice(xs, func(i, j int) bool { return xs[i] < xs[j] })
+		cs = append(cs, cTup(cN(uint64(c)), cList(reps), vC09Runs(xs)))
+	}
+	return cList(cs)
+}
+
+func (w *vC09World) reader() *vCCIPReader {
+	return &vCCIPReader{
+		CommitReportsFn: func(dest cciptypes.ChainSelector, ts time.Time, limit int) ([]plugintypes2.CommitPluginReportWithMeta, error) {
+			return append([]plugintypes2.CommitPluginReportWithMeta{}, w.reports...), nil
+		},
+		ExecutedFn: func(source, dest cciptypes.ChainSelector, q cciptypes.SeqNumRange) ([]cciptypes.SeqNumRange, error) {
+			var set []uint64
+			for s := range w.executed[source] {
+				set = append(set, s)
+			}
+			vSortU64(set)
+			ans, _ := vC09Shape(w.r, set, uint64(q.Start()), uint64(q.End()), false)
+			return vC09ToSeqRanges(ans), nil
+		},
+		MsgsFn: func(chain cciptypes.ChainSelector, q cciptypes.SeqNumRange) ([]cciptypes.Message, error) {
+			var out []cciptypes.Message
+			for s := uint64(q.Start()); s <= uint64(q.End()); s++ {
+				if m, ok := w.msgs[chain][s]; ok {
+					out = append(out, m)
+				}
+			}
+			return out, nil
+		},
+	}
+}
+
+func TestVerif_C09_history(t *testing.T) {
+	ctx := context.Background()
+	r := vNewRand(vSeed() + 94)
+	nHist := vEnvInt("VERIF_N", 40)
+	sink := vOpenSink("C09_history")
+	defer sink.Close()
+	for h := 0; h < nHist; h++ {
+		hr := vNewRand(r.U64())
+		policy := vPick(hr, []string{"all-land", "all-land", "lossy", "none-land"})
+		w := &vC09World{r: hr, chains: []cciptypes.ChainSelector{1, 2}, msgs: map[cciptypes.ChainSelector]map[uint64]cciptypes.Message{},
+			reps: map[cciptypes.ChainSelector][]vC09Rep{}, executed: map[cciptypes.ChainSelector]map[uint64]bool{},
+			next: map[cciptypes.ChainSelector]uint64{}, now: time.Now().UTC().Add(-time.Hour)}
+		if hr.Bool() {
+			w.chains = w.chains[:1]
+		}
+		for _, c := range w.chains {
+			w.msgs[c] = map[uint64]cciptypes.Message{}
+			w.executed[c] = map[uint64]bool{}
+			w.next[c] = uint64(hr.Range(1, 30))
+		}
+		// the DON: four oracles, all reading every chain; one of them may lag or stay silent
+		hc := vNewHomeChain()
+		ids := []commontypes.OracleID{0, 1, 2, 3}
+		p2p := map[commontypes.OracleID]libocrtypes.PeerID{}
+		var peers []libocrtypes.PeerID
+		for _, o := range ids {
+			p2p[o] = vPeer(int(o))
+			peers = append(peers, vPeer(int(o)))
+		}
+		for _, c := range append(append([]cciptypes.ChainSelector{}, w.chains...), 900) {
+			hc.SetChain(c, 1, peers)
+		}
+		faulty := vPick(hr, []string{"none", "none", "silent", "garbage"})
+		var nodes []*Plugin
+		for _, o := range ids {
+			nodes = append(nodes, &Plugin{
+				reportingCfg: ocr3types.ReportingPluginConfig{OracleID: o, F: 1, N: 4},
+				offchainCfg: pluginconfig.ExecuteOffchainConfig{BatchGasLimit: 100000000,
+					MessageVisibilityInterval: *commonconfig.MustNewDuration(8 * time.Hour)},
+				destChain: 900, ccipReader: w.reader(), reportCodec: mocks.NewExecutePluginJSONReportCodec(),
+				msgHasher: mocks.NewMessageHasher(), homeChain: hc,
+				chainSupport:          plugincommon.NewChainSupport(mocks.NullLogger, hc, p2p, o, 900),
+				oracleIDToP2pID:       p2p,
+				tokenDataObserver:     &tokendata.NoopTokenDataObserver{},
+				costlyMessageObserver: costlymessages.NewObserver(mocks.NullLogger, false, nil, nil),
+				estimateProvider:      vC09Gas{},
+				lggr:                  mocks.NullLogger,
+			})
+		}
+		var prev []byte
+		prevState := exectypes.Unknown
+		cycleSnap := w.snapshot()
+		rounds := hr.Range(6, 30)
+		for round := 1; round <= rounds; round++ {
+			// ---- the world moves ----
+			for _, c := range w.chains {
+				if hr.Chance(2, 5) {
+					w.commitLands(t, c)
+				}
+				if hr.Chance(1, 4) { // executions from elsewhere: singly, out of order, across report boundaries
+					for _, p := range w.reps[c] {
+						for s := p.lo; s <= p.hi; s++ {
+							if hr.Chance(1, 4) {
+								w.executed[c][s] = true
+							}
+						}
+					}
+				}
+			}
+			state := prevState.Next()
+			if state == exectypes.GetCommitReports {
+				cycleSnap = w.snapshot()
+			}
+			outctx := ocr3types.OutcomeContext{SeqNr: uint64(round), PreviousOutcome: prev}
+			var aos []types.AttributedObservation
+			fail := ""
+			for i, n := range nodes {
+				if i == 3 && faulty == "silent" {
+					continue
+				}
+				obs, err := n.Observation(ctx, outctx, nil)
+				if err != nil {
+					fail = "observation: " + err.Error()
+					break
+				}
+				if i == 3 && faulty == "garbage" {
+					obs, _ = exectypes.Observation{CostlyMessages: []cciptypes.Bytes32{vC17B32x(7), vC17B32x(7)}}.Encode()
+				}
+				ao := types.AttributedObservation{Observation: obs, Observer: ids[i]}
+				if err := nodes[0].ValidateObservation(ctx, outctx, nil, ao); err == nil {
+					aos = append(aos, ao)
+				}
+			}
+			out := ""
+			var oc exectypes.Outcome
+			func() {
+				defer func() {
+					if rec := recover(); rec != nil {
+						out = "Panic"
+					}
+				}()
+				if fail != "" {
+					out = "Err"
+					return
+				}
+				o1, err := nodes[0].Outcome(ctx, outctx, nil, aos)
+				if err != nil {
+					out = "Err"
+					return
+				}
+				o2, err2 := nodes[1].Outcome(ctx, outctx, nil, aos)
+				if err2 != nil || !bytes.Equal(o1, o2) {
+					out = "Err" // two honest oracles disagree on the outcome
+					return
+				}
+				oc, err = exectypes.DecodeOutcome(o1)
+				if err != nil {
+					out = "Err"
+					return
+				}
+				prev = o1
+			}()
+			stateN := map[exectypes.PluginState]int{exectypes.GetCommitReports: 1, exectypes.GetMessages: 2, exectypes.Filter: 3}[state]
+			if out == "" {
+				pend := append([]exectypes.CommitData{}, oc.PendingCommitReports...)
+				sort.Slice(pend, func(i, j int) bool {
+					if pend[i].SourceChain != pend[j].SourceChain {
+						return pend[i].SourceChain < pend[j].SourceChain
+					}
+					return pend[i].SequenceNumberRange.Start() < pend[j].SequenceNumberRange.Start()
+				})
+				var ps, ms []string
+				for _, d := range pend {
+					ps = append(ps, cPair(cN(uint64(d.SourceChain)), vC09RepOut(d)))
+				}
+				type cs struct{ c, s uint64 }
+				var sel []cs
+				for _, cr := range oc.Report.ChainReports {
+					for _, m := range cr.Messages {
+						sel = append(sel, cs{uint64(cr.SourceChainSelector), uint64(m.Header.SequenceNumber)})
+					}
+				}
+				sort.Slice(sel, func(i, j int) bool {
+					if sel[i].c != sel[j].c {
+						return sel[i].c < sel[j].c
+					}
+					return sel[i].s < sel[j].s
+				})
+				for _, x := range sel {
+					ms = append(ms, cPair(cN(x.c), cN(x.s)))
+				}
+				out = "(Ok " + cPair(cList(ps), cList(ms)) + ")"
+				// the report lands (or not)
+				for _, x := range sel {
+					switch policy {
+					case "all-land":
+						w.executed[cciptypes.ChainSelector(x.c)][x.s] = true
+					case "lossy":
+						if hr.Bool() {
+							w.executed[cciptypes.ChainSelector(x.c)][x.s] = true
+						}
+					}
+				}
+				if oc.State == exectypes.Unknown { // empty outcome: the next round starts a new cycle
+					prevState = exectypes.Unknown
+					prev = nil
+				} else {
+					prevState = oc.State
+				}
+			}
+			sink.Emit("C09_history", fmt.Sprintf("%s/%s/state-%d", policy, faulty, stateN), stateN == 3,
+				cPair(cPair(cNi(stateN), cycleSnap), out),
+				map[string]any{"history": h, "round": round, "state": stateN, "policy": policy, "faulty": faulty, "snapshot": cycleSnap, "out": out})
+			if out == "Err" || out == "Panic" {
+				break
+			}
+		}
 	}
 }
